@@ -118,10 +118,15 @@ def judgeLine (line : String) : String :=
     | some (a, b, _) => !cbCurrent a b
     | none => false)
   let toks := toks0.map (fun t => match rereadOf t with | some (_, _, front) => front | none => t)
+  -- a RESULT that carries an element whose validity lies before the origin of the clock (`id@-n`, the harness prints what the
+  -- element's ValidUntil holds): every call passes a validity at or after the origin (`parseVal` reads a `Nat`) and the
+  -- sequential map only ever returns values that some call passed, so no linearization explains such a result
+  let alien := toks0.find? (fun t => t.startsWith "r" && (t.splitOn "@-").length > 1)
   match toks.find? (fun t => (t.splitOn ":panic").length > 1 || t == "r9:deadlock" || t == "r9:diverged"), stale with
   | some t, _ => if t == "r9:diverged" then "skip diverged" else s!"violates no-crash {t}"
   | none, some t => s!"violates callbacks-see-current-value {t}"
   | none, none =>
+    if alien.isSome then "lin none" else
     -- results the wrapper does not report (`r<t>:?`, only for `clos`): the history is linearizable if it is for SOME result the
     -- call may have had (it stored its own element, or it found one of the values ever offered for that key)
     let vals : List Val := (toks.filterMap (fun t => if t.startsWith "c" then
